@@ -35,6 +35,7 @@ TcpSigAt(k) ==
 TcpObs == {[ver |-> v, pclass |-> p, olayout |-> l, mss |-> m, ittl |-> t, olen |-> 0, wsize |-> W("mss", 4), wscale |-> 7, quirks |-> <<"df", "id+">>] :
              v \in {"4", "6"}, p \in {"0", "+"}, l \in {L1, L2}, m \in {1460, 1400}, t \in {TtlD(57, 7), TtlD(120, 8)}}
 
+Extra(n) == [i \in 1..n |-> H("X-Extra-" \o ToString(i))]
 HVerS == <<"0", "1", "*">>
 HoS == <<<<H("Host"), HO("Accept")>>, <<H("Host"), H("User-Agent")>>>>
 SwS == <<"", "curl">>
@@ -42,6 +43,9 @@ NH == 3 * 2 * 2
 HttpSigAt(k) == [ver |-> HVerS[(k % 3) + 1], horder |-> HoS[((k \div 3) % 2) + 1], habsent |-> <<>>, sw |-> SwS[(k \div 6) + 1]]
 HttpObs == {[ver |-> v, horder |-> h, habsent |-> <<>>, sw |-> w] :
               v \in {"0", "1", "2", "3"}, h \in {<<H("Host")>>, <<H("Host"), H("Accept")>>, <<H("Host"), H("User-Agent")>>}, w \in {"", "curl"}}
+           \* far observations: 4 / 7 / 10 unexpected headers in either list and another software string, so that the best match lies at
+           \* every distance from 1 to 9 (the quality reported must be the one of THAT distance on the HTTP scale)
+           \cup {[ver |-> "1", horder |-> <<H("Host")>> \o Extra(k), habsent |-> Extra(a), sw |-> w] : k \in {0, 4, 7, 10}, a \in {0, 4, 10}, w \in {"curl", "zz"}}
 
 \* databases: sequences of 1..3 signature numbers (base n), index in length-then-lexicographic order
 NDb(n) == n + n * n + n * n * n
